@@ -176,10 +176,12 @@ bad = []
 for (dta, dtb, M) in ((Fraction(1, 12), Fraction(1, 250), Fraction(10, 250)), (Fraction(1, 10), Fraction(1, 365), Fraction(7, 365)), (Fraction(1, 250), Fraction(1, 12), Fraction(1, 2))):
     a = pi.BrownianStock(dt=float(dta)); b = pi.BrownianStock(dt=float(dtb))
     d = pi.EuropeanOption(a, maturity=float(M)); d.register_underlier("second", b)
-    d.simulate(n_paths=2)
-    for (u, dt) in ((a, dta), (b, dtb)):
-        want = math.ceil(M / dt) + 1
-        if u.spot.size(1) != want: bad.append((str(dta), str(dtb), str(M), u.spot.size(1), want))
+    for init in (None, (1.25,), 0.8):
+        d.simulate(n_paths=2, init_state=init)
+        for (u, dt) in ((a, dta), (b, dtb)):
+            want = math.ceil(M / dt) + 1
+            if u.spot.size(1) != want: bad.append((str(dta), str(dtb), str(M), "init_state=%r" % (init,), u.spot.size(1), want))
+            if init is not None and abs(float(u.spot[0, 0]) - (init[0] if isinstance(init, tuple) else init)) > 1e-6: bad.append(("init_state=%r not used" % (init,), float(u.spot[0, 0])))
 result = {"got": [str(x) for x in bad], "ref": []}
 '''
 
@@ -221,7 +223,12 @@ def derivative_simulate_ob():
                 same_init = st_ is init or (isinstance(st_, (tuple, list)) and len(st_) == len(init) and all(tm.as_term(lift(x_)) is tm.as_term(lift(y_)) for x_, y_ in zip(st_, init)))
                 if smt.prove(facts, tm.eq(tm.as_term(lift(kw['n_paths'])), NP), timeout_ms=5000).status != 'unsat' or not same_init:
                     return Verdict('refuted', 'structural', time.time() - t0, 'n_paths / init_state not forwarded unchanged', witness={}, replay={'confirmed': False})
-                h = tm.as_term(lift(kw['time_horizon']))
+                if 'time_horizon' in kw:
+                    h = tm.as_term(lift(kw['time_horizon']))
+                else:
+                    # not passed: the underlier simulates over ITS OWN default horizon
+                    import inspect
+                    h = tm.const(float(inspect.signature(pi.BrownianStock.simulate).parameters['time_horizon'].default))
                 # what matters for the time grid: the number of time points this underlier will get
                 got = tm.ceil(tm.add(tm.div(h, dt_), tm.ONE))
                 want = tm.ceil(tm.add(tm.div(M, dt_), tm.ONE))
